@@ -194,6 +194,12 @@ type Default struct {
 	// devices.
 	humanIDToDeviceID map[humanIDKey]agd.DeviceID
 
+	// mapsGen is the generation of the maps above.  It is incremented, under
+	// mapsMu, every time the maps are updated with new data.  A background
+	// cleanup that has been started for an older generation must not touch the
+	// maps, since the entry it wants to remove may have been set anew.
+	mapsGen uint64
+
 	// linkedIPToDeviceID maps linked IP addresses to the IDs of their devices.
 	linkedIPToDeviceID map[netip.Addr]agd.DeviceID
 
@@ -512,6 +518,8 @@ func (db *Default) setProfiles(
 // setDevices adds or updates the data for the given devices.  It assumes that
 // db.mapsMu is locked for writing.
 func (db *Default) setDevices(ctx context.Context, devices []*agd.Device) {
+	db.mapsGen++
+
 	for _, d := range devices {
 		devID := d.ID
 		db.devices[devID] = d
@@ -620,7 +628,7 @@ func (db *Default) ProfileByDedicatedIP(
 		if errors.Is(err, ErrDeviceNotFound) {
 			// Probably, the device has been deleted.  Remove it from our
 			// profile DB in a goroutine, since that requires a write lock.
-			go db.removeDedicatedIP(ctx, ip)
+			go db.removeDedicatedIP(ctx, db.mapsGen, ip)
 		}
 
 		// Don't add the device ID to the error here, since it is already added
@@ -631,7 +639,7 @@ func (db *Default) ProfileByDedicatedIP(
 	if !slices.Contains(d.DedicatedIPs, ip) {
 		// Perhaps, the device has changed its dedicated IPs.  Remove it from
 		// our profile DB in a goroutine, since that requires a write lock.
-		go db.removeDedicatedIP(ctx, ip)
+		go db.removeDedicatedIP(ctx, db.mapsGen, ip)
 
 		return nil, nil, fmt.Errorf(
 			"%s: rechecking dedicated ips: %w",
@@ -673,7 +681,7 @@ func (db *Default) profileByDeviceID(
 	if !ok {
 		// We have an older device record with a deleted profile.  Remove it
 		// from our profile DB in a goroutine, since that requires a write lock.
-		go db.removeDevice(ctx, id)
+		go db.removeDevice(ctx, db.mapsGen, id)
 
 		return nil, nil, ErrProfileNotFound
 	}
@@ -696,7 +704,7 @@ func (db *Default) profileByDeviceID(
 			//
 			// Do not do that for profiles with enabled autodevices, though.
 			// See the TODO in [Default.CreateAutoDevice].
-			go db.removeDevice(ctx, id)
+			go db.removeDevice(ctx, db.mapsGen, id)
 		}
 
 		return nil, nil, fmt.Errorf("rechecking devices: %w", ErrDeviceNotFound)
@@ -707,22 +715,32 @@ func (db *Default) profileByDeviceID(
 
 // removeDevice removes the device with the given ID from the database.  It is
 // intended to be used as a goroutine.
-func (db *Default) removeDevice(ctx context.Context, id agd.DeviceID) {
+func (db *Default) removeDevice(ctx context.Context, gen uint64, id agd.DeviceID) {
 	defer slogutil.RecoverAndExit(ctx, db.logger, osutil.ExitCodeFailure)
 
 	db.mapsMu.Lock()
 	defer db.mapsMu.Unlock()
+
+	if db.mapsGen != gen {
+		// The maps have been updated since the stale entry was seen.
+		return
+	}
 
 	delete(db.deviceIDToProfileID, id)
 }
 
 // removeDedicatedIP removes the device link for the given dedicated IP address
 // from the profile database.  It is intended to be used as a goroutine.
-func (db *Default) removeDedicatedIP(ctx context.Context, ip netip.Addr) {
+func (db *Default) removeDedicatedIP(ctx context.Context, gen uint64, ip netip.Addr) {
 	defer slogutil.RecoverAndExit(ctx, db.logger, osutil.ExitCodeFailure)
 
 	db.mapsMu.Lock()
 	defer db.mapsMu.Unlock()
+
+	if db.mapsGen != gen {
+		// The maps have been updated since the stale entry was seen.
+		return
+	}
 
 	delete(db.dedicatedIPToDeviceID, ip)
 }
@@ -763,7 +781,7 @@ func (db *Default) ProfileByHumanID(
 		if errors.Is(err, ErrDeviceNotFound) {
 			// Probably, the device has been deleted.  Remove it from our
 			// profile DB in a goroutine, since that requires a write lock.
-			go db.removeHumanID(ctx, k)
+			go db.removeHumanID(ctx, db.mapsGen, k)
 		}
 
 		// Don't add the device ID to the error here, since it is already added
@@ -775,7 +793,7 @@ func (db *Default) ProfileByHumanID(
 		// Perhaps, the device has changed its human ID, for example by being
 		// transformed into a normal device..  Remove it from our profile DB in
 		// a goroutine, since that requires a write lock.
-		go db.removeHumanID(ctx, k)
+		go db.removeHumanID(ctx, db.mapsGen, k)
 
 		return nil, nil, fmt.Errorf("%s: rechecking human id: %w", errPrefix, ErrDeviceNotFound)
 	}
@@ -785,11 +803,16 @@ func (db *Default) ProfileByHumanID(
 
 // removeHumanID removes the device link for the given key from the profile
 // database.  It is intended to be used as a goroutine.
-func (db *Default) removeHumanID(ctx context.Context, k humanIDKey) {
+func (db *Default) removeHumanID(ctx context.Context, gen uint64, k humanIDKey) {
 	defer slogutil.RecoverAndExit(ctx, db.logger, osutil.ExitCodeFailure)
 
 	db.mapsMu.Lock()
 	defer db.mapsMu.Unlock()
+
+	if db.mapsGen != gen {
+		// The maps have been updated since the stale entry was seen.
+		return
+	}
 
 	delete(db.humanIDToDeviceID, k)
 }
@@ -818,7 +841,7 @@ func (db *Default) ProfileByLinkedIP(
 		if errors.Is(err, ErrDeviceNotFound) {
 			// Probably, the device has been deleted.  Remove it from our
 			// profile DB in a goroutine, since that requires a write lock.
-			go db.removeLinkedIP(ctx, ip)
+			go db.removeLinkedIP(ctx, db.mapsGen, ip)
 		}
 
 		// Don't add the device ID to the error here, since it is already added
@@ -835,7 +858,7 @@ func (db *Default) ProfileByLinkedIP(
 	} else if d.LinkedIP != ip {
 		// The linked IP has changed.  Remove it from our profile DB in a
 		// goroutine, since that requires a write lock.
-		go db.removeLinkedIP(ctx, ip)
+		go db.removeLinkedIP(ctx, db.mapsGen, ip)
 
 		return nil, nil, fmt.Errorf(
 			"%s: %q does not match: %w",
@@ -850,11 +873,16 @@ func (db *Default) ProfileByLinkedIP(
 
 // removeLinkedIP removes the device link for the given linked IP address from
 // the profile database.  It is intended to be used as a goroutine.
-func (db *Default) removeLinkedIP(ctx context.Context, ip netip.Addr) {
+func (db *Default) removeLinkedIP(ctx context.Context, gen uint64, ip netip.Addr) {
 	defer slogutil.RecoverAndExit(ctx, db.logger, osutil.ExitCodeFailure)
 
 	db.mapsMu.Lock()
 	defer db.mapsMu.Unlock()
+
+	if db.mapsGen != gen {
+		// The maps have been updated since the stale entry was seen.
+		return
+	}
 
 	delete(db.linkedIPToDeviceID, ip)
 }
